@@ -120,6 +120,16 @@ Definition it_joined (self : itable) (other : table) (cs co : option (list str))
   bind (joined (base self) other cs co inner prefix) (fun b =>
     activate b (if inner then iname self else None)).
 
+(* Table.inner_join(other) with the default use_index=True and no key columns (l.1012-1019): both tables
+   must carry an index_name; rows pair on self[index_name] == other[other.index_name]; the result keeps
+   self's index_name *)
+Definition it_inner_join_index (self other : itable) (prefix : str) : res itable :=
+  match iname self, iname other with
+  | Some si, Some oi =>
+      bind (inner_join (base self) (base other) (Some [si]) (Some [oi]) prefix) (fun b => activate b (iname self))
+  | _, _ => Er E_Value
+  end.
+
 Definition it_appended (self : itable) (nc : option str) (titled : list (str * table)) : res itable :=
   bind (appended (base self) nc titled) (fun b => activate b (iname self)).
 
@@ -184,7 +194,8 @@ Inductive iop :=
 | IBase (o : op)                              (* the Table-API operations of Model/TableRun.v, index carried along *)
 | ILookup (label : cell) (c : str)            (* table[label, c] *)
 | IRow (label : cell)                         (* table[label] *)
-| IGetColumns (names : list str) (with_index : bool).
+| IGetColumns (names : list str) (with_index : bool)
+| IInnerJoinIndex (other : nat) (other_index : option str) (prefix : str).   (* self.inner_join(other) *)
 
 Definition itable_val (t : itable) : val :=
   VL [table_val (base t); match iname t with Some n => VS n | None => VN end].
@@ -195,6 +206,8 @@ Definition apply_iop (ts : list table) (cur : itable) (o : iop) : res (itable * 
   | ILookup l c => bind (it_lookup cur l c) (fun v => Ok (cur, cell_val v))
   | IRow l => bind (it_row cur l) (fun r => Ok (cur, itable_val r))
   | IGetColumns names wi => tv (it_get_columns cur names wi)
+  | IInnerJoinIndex k oix p =>
+      bind (activate (nth k ts empty_table) oix) (fun other => tv (it_inner_join_index cur other p))
   | IBase (OJoin k cs co inner p) => tv (it_joined cur (nth k ts empty_table) cs co inner p)
   | IBase (OSorted c r) => tv (it_sorted cur c r)
   | IBase (OFiltered p c) => tv (it_filtered cur (eval_pred p) c)
@@ -207,6 +220,8 @@ Definition apply_iop (ts : list table) (cur : itable) (o : iop) : res (itable * 
   | IBase (OCount p c) => bind (count (base cur) (eval_pred p) c) (fun n => Ok (cur, VZ n))
   | IBase (ODistinct c) =>
       bind (distinct_values (base cur) c) (fun ks => Ok (cur, VL (map (fun k => VL (map cell_val k)) ks)))
+  | IBase (OCountUnique a) => bind (apply_op ts (base cur) (OCountUnique a)) (fun r => Ok (cur, snd r))
+  | IBase (ODistinctArg a) => bind (apply_op ts (base cur) (ODistinctArg a)) (fun r => Ok (cur, snd r))
   end.
 
 Fixpoint run_iops (ts : list table) (cur : itable) (ops : list iop) : list val :=
